@@ -1293,6 +1293,29 @@ pub fn run_scenario(text: &str) -> String {
                     }
                 }
             }
+            "UNTILCONN" => {
+                // rounds until the RenetClient of peer p reports connected (the handshake takes a
+                // wall-clock dependent number of frames): lets a scenario place operations
+                // deterministically relative to the join
+                let p: usize = w[1].parse().unwrap();
+                let max: u32 = w.get(2).and_then(|x| x.parse().ok()).unwrap_or(40);
+                for _ in 0..max {
+                    let connected = s.peers[p]
+                        .app
+                        .world()
+                        .get_resource::<RenetClient>()
+                        .map(|c| c.is_connected())
+                        .unwrap_or(false);
+                    if connected {
+                        break;
+                    }
+                    for q in 0..n {
+                        if s.peers[q].is_setup {
+                            s.frame(q);
+                        }
+                    }
+                }
+            }
             "DRAIN" => {
                 let max: u32 = w.get(1).and_then(|x| x.parse().ok()).unwrap_or(60);
                 s.drain(max, 3);
